@@ -127,6 +127,17 @@ func init() {
 			jobs = append(jobs, concJob("BulkRefresh‖InvalidateAll/"+ex, ref, []string{"set 1", "set 2"}, [][]string{{"bulkrefresh 1,2 full"}, {"invall"}}, or, "native", bpb, false, 8, budget, "writes-during-flight"))
 			jobs = append(jobs, concJob("missLoad‖Set;Invalidate/"+ex, plain, nil, [][]string{{"load 1 val"}, {"set 1", "inv 1"}}, or, "native", pb, false, 8, budget))
 		}
+		// the same core races from non-initial states: after loads that ended in every way (extra keys volunteered by a
+		// bulk loader, partial results, errors, not-found), after which the bookkeeping of the in-flight table must be
+		// exactly what it is on a fresh cache
+		for _, hist := range [][]string{{"bulk 5 extra"}, {"bulk 5,6 partial"}, {"load 6 err"}, {"load 6 nf", "bulk 5 extra", "inv 9"}} {
+			for _, w := range []string{"set 1", "inv 1", "cw 1"} {
+				lbl := "after[" + strings.Join(hist, ";") + "]"
+				jobs = append(jobs, concJob("missLoad‖"+w+"/"+lbl, CacheCfg{Executor: "caller"}, hist, [][]string{{"load 1 val"}, {w}}, or, "native", pb, false, 4, budget))
+				ref := CacheCfg{Refresh: "writing", RefreshTTL: 40, ClockStart: 1 << 40, Executor: "caller"}
+				jobs = append(jobs, concJob("reload‖"+w+"/"+lbl, ref, append(append([]string{}, hist...), "set 1", "adv 50"), [][]string{{"load 1 val"}, {w}}, or, "native", pb, false, 4, budget))
+			}
+		}
 		// many loads in flight at once: the in-flight table itself grows while the calls are registered; writes to
 		// several of the keys during the load must still cancel their installs (coarse: operation granularity, unbounded)
 		for _, v := range []struct {
@@ -199,6 +210,18 @@ func init() {
 				jobs = append(jobs, concJob("L3:pair:"+a+"‖"+b, CacheCfg{MaxSize: 2}, []string{"set 1", "set 2"}, [][]string{{a, "get " + kb}, {b, "get " + ka}}, or, "native", pb, false, 4, budget, "histories-checked"))
 				if thorough {
 					jobs = append(jobs, concJob("L3:pair:"+a+"‖"+b+"/default", CacheCfg{MaxSize: 2, Executor: "default"}, []string{"set 1", "set 2"}, [][]string{{a, "get " + kb}, {b, "get " + ka}}, or, "native", pb-1, false, 8, budget, "histories-checked"))
+				}
+			}
+		}
+		// L7: loader-backed Get with every loader outcome against each kind of writer of the same key (a load that ends
+		// without a value must not undo a completed write: the write would be lost from every total order)
+		for _, o := range []string{"val", "nf", "err"} {
+			for _, w := range []string{"set 1", "sia 1", "cw 1", "inv 1"} {
+				for _, setup := range [][]string{{"set 2"}, {"set 2", "set 1"}} {
+					if !thorough && len(setup) == 2 && o == "err" {
+						continue
+					}
+					jobs = append(jobs, concJob(fmt.Sprintf("L7:Get(%s)‖%s/%d", o, w, len(setup)), CacheCfg{}, setup, [][]string{{"load 1 " + o, "get 1"}, {w, "get 1"}}, or, "native", pb, false, 4, budget, "histories-checked"))
 				}
 			}
 		}
